@@ -220,49 +220,128 @@ theorem litUuidP_append {u rest : Str} (hu : ValidUuid u) : litUuidP (u ++ rest)
 
 /-! ### string literals -/
 
-/-- A string literal as `lit_string` matches it: an opening quote and a tail that the rule consumes entirely. -/
-def ValidLitString (v : Str) : Prop := ∃ body, v = '"' :: body ∧ litStringTail body = some (body, [])
+/-- What `lit_string_char* ~ "\""` consumes: string characters, then the closing quote. -/
+inductive StrBody : Str → Prop
+  | close : StrBody ['"']
+  | step (cs : Str) (n : Nat) : strCharLen cs = n + 1 → StrBody (cs.drop (n + 1)) → StrBody cs
 
-theorem litStringTail_append : ∀ (fuel : Nat) (body rest : Str), body.length ≤ fuel →
-    litStringTail body = some (body, []) → litStringTail (body ++ rest) = some (body, rest)
-  | 0, body, rest, hl, h => by
-    have : body = [] := List.eq_nil_of_length_eq_zero (Nat.le_zero.1 hl)
-    subst this; simp [litStringTail] at h
-  | fuel + 1, body, rest, hl, h => by
+theorem StrBody.ne_nil {cs : Str} (h : StrBody cs) : cs ≠ [] := by
+  cases h with
+  | close => simp
+  | step cs n hn _ => intro he; subst he; simp [strCharLen] at hn
+
+theorem strCharLen_le_two (cs : Str) : strCharLen cs ≤ 2 := by
+  unfold strCharLen; split <;> omega
+
+/-- `strCharLen` looks at two characters at most. -/
+theorem strCharLen_append (a rest : Str) (h : 2 ≤ a.length) : strCharLen (a ++ rest) = strCharLen a := by
+  match a, h with
+  | c :: d :: t, _ => simp only [List.cons_append]; unfold strCharLen; split <;> split <;> grind
+
+/-- A string literal as `lit_string` matches it. -/
+def ValidLitString (v : Str) : Prop := ∃ body, v = '"' :: body ∧ StrBody body
+
+theorem strBody_drop_length {cs : Str} {n : Nat} (hn : strCharLen cs = n + 1) (hb : StrBody (cs.drop (n + 1))) :
+    n + 2 ≤ cs.length := by
+  have := hb.ne_nil
+  have hl : (cs.drop (n + 1)).length ≠ 0 := fun h => this (List.eq_nil_of_length_eq_zero h)
+  simp at hl; omega
+
+theorem litStringTail_append {body : Str} (hb : StrBody body) : ∀ (fuel : Nat) (rest : Str), body.length < fuel →
+    litStringTail fuel (body ++ rest) = some (body, rest) := by
+  induction hb with
+  | close =>
+    intro fuel rest hf
+    cases fuel with
+    | zero => simp at hf
+    | succ f => simp [litStringTail, strCharLen]
+  | step cs n hn hb ih =>
+    intro fuel rest hf
+    have hlen := strBody_drop_length hn hb
+    cases fuel with
+    | zero => simp at hf
+    | succ f =>
+      have h2 : strCharLen (cs ++ rest) = n + 1 := by rw [strCharLen_append cs rest (by omega), hn]
+      have hd : (cs ++ rest).drop (n + 1) = cs.drop (n + 1) ++ rest := by
+        rw [List.drop_append_of_le_length (by omega)]
+      have ht : (cs ++ rest).take (n + 1) = cs.take (n + 1) := by
+        rw [List.take_append_of_le_length (by omega)]
+      unfold litStringTail
+      simp only [h2, hd, ht]
+      rw [ih f rest (by simp; omega)]
+      simp [List.take_append_drop]
+
+/-- What `litStringTail` returns splits its input. -/
+theorem litStringTail_split : ∀ (fuel : Nat) (cs a b : Str), litStringTail fuel cs = some (a, b) → cs = a ++ b := by
+  intro fuel
+  induction fuel with
+  | zero => intro cs a b h; simp [litStringTail] at h
+  | succ f ih =>
+    intro cs a b h
     unfold litStringTail at h
     split at h
-    · rename_i r
-      simp only [Option.map_eq_some_iff, Prod.mk.injEq, List.cons.injEq, true_and, Prod.exists] at h
-      obtain ⟨a, b, hab, rfl, rfl⟩ := h
-      have := litStringTail_append fuel a rest (by simp at hl; omega) hab
-      simp [litStringTail, this]
-    · rename_i r
-      simp only [Option.map_eq_some_iff, Prod.mk.injEq, List.cons.injEq, true_and, Prod.exists] at h
-      obtain ⟨a, b, hab, rfl, rfl⟩ := h
-      have := litStringTail_append fuel a rest (by simp at hl; omega) hab
-      simp [litStringTail, this]
-    · rename_i r
-      simp only [Option.some.injEq, Prod.mk.injEq, List.cons.injEq, true_and] at h
-      obtain ⟨h1, _⟩ := h
-      subst h1
-      simp [litStringTail]
-    · simp at h
-    · simp at h
-    · rename_i c r h1 h2 h3 h4 h5
-      simp only [Option.map_eq_some_iff, Prod.mk.injEq, List.cons.injEq, true_and, Prod.exists] at h
-      obtain ⟨a, b, hab, rfl, rfl⟩ := h
-      have := litStringTail_append fuel a rest (by simp at hl; omega) hab
-      cases a with
-      | nil => simp [litStringTail] at hab
-      | cons d a =>
-        -- the same clause applies to the longer input
-        rw [List.cons_append]
-        unfold litStringTail
-        split <;> simp_all
-    · simp at h
+    · split at h
+      · simp at h; obtain ⟨rfl, rfl⟩ := h; rfl
+      · simp at h
+    · rename_i n hn
+      simp only [Option.map_eq_some_iff] at h
+      obtain ⟨⟨a', b'⟩, hr, he⟩ := h
+      simp at he; obtain ⟨rfl, rfl⟩ := he
+      have := ih _ _ _ hr
+      rw [List.append_assoc, ← this, List.take_append_drop]
+
+/-- What `litStringTail` consumes is a string body. -/
+theorem litStringTail_valid : ∀ (fuel : Nat) (cs a b : Str), litStringTail fuel cs = some (a, b) → StrBody a := by
+  intro fuel
+  induction fuel with
+  | zero => intro cs a b h; simp [litStringTail] at h
+  | succ f ih =>
+    intro cs a b h
+    unfold litStringTail at h
+    split at h
+    · split at h
+      · simp at h; obtain ⟨rfl, rfl⟩ := h; exact .close
+      · simp at h
+    · rename_i n hn
+      simp only [Option.map_eq_some_iff] at h
+      obtain ⟨⟨a', b'⟩, hr, he⟩ := h
+      simp at he; obtain ⟨rfl, rfl⟩ := he
+      have hb := ih _ _ _ hr
+      have hsp := litStringTail_split _ _ _ _ hr
+      have hne := hb.ne_nil
+      have hle := strCharLen_le_two cs
+      -- the take is full: the rest of the input is not empty
+      have hlen : n + 1 < cs.length := by
+        have : (cs.drop (n + 1)).length ≠ 0 := by
+          rw [hsp]; intro h0; simp at h0; exact hne h0.1
+        simp at this; omega
+      have htl : (cs.take (n + 1)).length = n + 1 := by simp; omega
+      have hcs : cs = cs.take (n + 1) ++ a' ++ b' := by
+        rw [List.append_assoc, ← hsp, List.take_append_drop]
+      have hwin : strCharLen (cs.take (n + 1) ++ a') = n + 1 := by
+        have h2 : 2 ≤ (cs.take (n + 1) ++ a').length := by
+          have : a'.length ≠ 0 := fun h0 => hne (List.eq_nil_of_length_eq_zero h0)
+          simp only [List.length_append, htl]; omega
+        have := strCharLen_append (cs.take (n + 1) ++ a') b' h2
+        rw [← hcs, hn] at this; exact this.symm
+      refine .step _ n hwin ?_
+      rw [List.drop_append_of_le_length (by omega), List.drop_of_length_le (by omega)]
+      simpa using hb
+
+theorem litStringP_valid {cs a b : Str} (h : litStringP cs = some (a, b)) : ValidLitString a := by
+  unfold litStringP at h
+  split at h
+  · simp only [Option.map_eq_some_iff] at h
+    obtain ⟨⟨a', b'⟩, hr, he⟩ := h
+    simp at he; obtain ⟨rfl, rfl⟩ := he
+    exact ⟨a', rfl, litStringTail_valid _ _ _ _ hr⟩
+  · simp at h
 
 theorem litStringP_append {v rest : Str} (hv : ValidLitString v) : litStringP (v ++ rest) = some (v, rest) := by
   obtain ⟨body, rfl, hb⟩ := hv
-  simp [litStringP, litStringTail_append body.length body rest (Nat.le_refl _) hb]
+  have hne := hb.ne_nil
+  simp only [litStringP, List.cons_append]
+  rw [litStringTail_append hb _ rest (by simp; omega)]
+  rfl
 
 end Aldrin.Schema
